@@ -14,7 +14,7 @@ import (
 func init() {
 	register(&propDef{
 		id:      "C24",
-		explain: "Structural necessary conditions of 'range requests yield exactly the requested bytes or a proper refusal': (E10) on every acyclic path of ParseByteRange (decided in the zone abstract domain, with the post-condition 'ParseUint returns a non-negative value when its error is nil'), every success return satisfies 0 <= startPos <= endPos < contentLength; (R2) in the FS handler a ParseByteRange error leads, on every path, to the reader being closed and a 416 answer; success leads to UpdateByteRange and SetContentRange being called with the parsed positions and to status 206; a failed UpdateByteRange closes the reader; (R3) not-modified and HEAD branches give the reader back (decrement / close) before returning; (R-pool) a pooled file reader is re-armed before it goes back to its pool: every field that UpdateByteRange sets and Read/WriteTo consult is re-assigned by Close on every path; (R-enc) every assignment of Content-Encoding in the FS handler is control-dependent on the opened file's own compressed flag (fasthttp may decline to compress a file although the request negotiated it); (R-fresh) an on-disk compressed copy that already existed is opened only after its modification time was compared with the original's, unless the same path has just written it; (R-stamp) where a created file is stamped with the original's modification time (os.Chtimes), the stamp is reached only after that file was closed - a later write would reset it; (R-bound) a reader that serves the window [startPos, endPos) of a file through ReadAt never asks for more than the window holds: on every path to every ReadAt call - from the function entry, or from the head of the enclosing loop with the loop variables unconstrained, so the bound has to be re-established in every iteration - the length of the buffer handed over is at most endPos minus the offset handed over (zone domain). (R-seekless) wherever the FS handler asks a file whether it is an io.Seeker, the branch that found it is not does not end in a constructed error; (R-clamp) in ParseByteRange only the first position's parse failure reaches an error return without the digits-only test of the token - a last position or suffix length beyond MaxInt is clamped; (R-sym) the mod times of a file and of its compressed copy are compared in one routine, and on every path on which it reports 'not stale' the difference-bound domain entails -1s < d < 1s - both directions. Not decided: the bytes served, the sub-second tolerance itself, date comparison to the second.",
+		explain: "Structural necessary conditions of 'range requests yield exactly the requested bytes or a proper refusal': (E10) on every acyclic path of ParseByteRange (decided in the zone abstract domain, with the post-condition 'ParseUint returns a non-negative value when its error is nil'), every success return satisfies 0 <= startPos <= endPos < contentLength; (R2) in the FS handler a ParseByteRange error leads, on every path, to the reader being closed and a 416 answer; success leads to UpdateByteRange and SetContentRange being called with the parsed positions and to status 206; a failed UpdateByteRange closes the reader; (R3) not-modified and HEAD branches give the reader back (decrement / close) before returning; (R-pool) a pooled file reader is re-armed before it goes back to its pool: every field that UpdateByteRange sets and Read/WriteTo consult is re-assigned by Close on every path; (R-enc) every assignment of Content-Encoding in the FS handler is control-dependent on the opened file's own compressed flag (fasthttp may decline to compress a file although the request negotiated it); (R-fresh) an on-disk compressed copy that already existed is opened only after its modification time was compared with the original's, unless the same path has just written it; (R-stamp) where a created file is stamped with the original's modification time (os.Chtimes), the stamp is reached only after that file was closed - a later write would reset it; (R-bound) a reader that serves the window [startPos, endPos) of a file through ReadAt never asks for more than the window holds: on every path to every ReadAt call - from the function entry, or from the head of the enclosing loop with the loop variables unconstrained, so the bound has to be re-established in every iteration - the length of the buffer handed over is at most endPos minus the offset handed over (zone domain). (R-clamp) in ParseByteRange only the first position's parse failure reaches an error return without the digits-only test of the token - a last position or suffix length beyond MaxInt is clamped; (R-sym) the mod times of a file and of its compressed copy are compared in one routine, and on every path on which it reports 'not stale' the difference-bound domain entails -1s < d < 1s - both directions. Not decided: the bytes served, the sub-second tolerance itself, date comparison to the second.",
 		run:     runC24,
 	})
 }
@@ -253,7 +253,6 @@ func runC24(p *Prog, r *Report) {
 	stampAfterLastWrite(p, r)
 	staleCopyTestIsSymmetric(p, r)
 	overlongRangeNumbersClamp(p, r)
-	seeklessFilesAreServed(p, r)
 }
 
 // dependsOnModTime: the value is computed from a ModTime() result.
@@ -847,64 +846,3 @@ func firstCallee(b *ssa.BasicBlock) *ssa.Function {
 	return nil
 }
 
-// seeklessFilesAreServed (C24.R-seekless): the files of an fs.FS need not be able to seek (members of an archive/zip
-// file system cannot). In the FS handler, wherever a file is asked whether it is an io.Seeker, the branch that found it
-// is not does not end in a freshly constructed error (errors.New / fmt.Errorf): such a file is closed instead of
-// pooled, skipped into instead of positioned, reopened instead of rewound.
-func seeklessFilesAreServed(p *Prog, r *Report) {
-	n := 0
-	for _, fn := range p.funcsIn("") {
-		if !strings.HasSuffix(p.Fset.Position(fn.Pos()).Filename, "fs.go") {
-			continue
-		}
-		for _, b := range fn.Blocks {
-			iff, ok := b.Instrs[len(b.Instrs)-1].(*ssa.If)
-			if !ok {
-				continue
-			}
-			pol, v := stripNot(iff.Cond)
-			ex, ok := v.(*ssa.Extract)
-			if !ok || ex.Index != 1 {
-				continue
-			}
-			ta, ok := ex.Tuple.(*ssa.TypeAssert)
-			if !ok || !ta.CommaOk || !strings.HasSuffix(ta.AssertedType.String(), "io.Seeker") {
-				continue
-			}
-			n++
-			failed := b.Succs[1]
-			if !pol {
-				failed = b.Succs[0]
-			}
-			bad := ""
-			var pos token.Pos
-			for _, bb := range fn.Blocks {
-				if bb != failed && !(failed.Dominates(bb) && len(failed.Preds) == 1) {
-					continue
-				}
-				rt, ok := bb.Instrs[len(bb.Instrs)-1].(*ssa.Return)
-				if !ok {
-					continue
-				}
-				for _, rv := range returnResults(rt) {
-					if !strings.HasSuffix(rv.Type().String(), "error") {
-						continue
-					}
-					if c, ok := rv.(*ssa.Call); ok && c.Call.StaticCallee() != nil {
-						f := c.Call.StaticCallee()
-						if f.Pkg != nil && (f.Pkg.Pkg.Path() == "errors" && f.Name() == "New" || f.Pkg.Pkg.Path() == "fmt" && f.Name() == "Errorf") {
-							bad = f.Pkg.Pkg.Path() + "." + f.Name()
-							pos = rt.Pos()
-						}
-					}
-				}
-			}
-			if pos == token.NoPos {
-				pos = iff.Pos()
-			}
-			r.Check("R-seekless", funcName(fn)+": a file that is not an io.Seeker is not refused", bad == "", p.Pos(pos),
-				"the branch 'the file cannot seek' returns an error made with "+bad+": files of an fs.FS whose members cannot seek (archive/zip) are served truncated (the error of the reader's Close drops the connection with the tail of the body unflushed), answered with 500 to a satisfiable range, or with 404 when their type has to be sniffed")
-		}
-	}
-	r.Floor("R-seekless", "io.Seeker tests in the FS handler", n, 2)
-}
